@@ -287,46 +287,16 @@ class VerusUnit:
 
 
 def _fn_line_table(text):
-    """[(start_line, end_line, fn_name)] for every fn in a verus file (1-based)."""
+    """[(start_line, end_line, fn_name)]: a function extends from its `fn` keyword to the
+    line before the next `fn` keyword (generated units have no nested fns; contract
+    clauses may contain braces, so brace matching from the signature is not reliable)."""
+    ms = find_all_code(text, r"\bfn\s+(\w+)")
+    starts = [(text.count("\n", 0, m.start()) + 1, m.group(1)) for m in ms]
+    total = text.count("\n") + 1
     out = []
-    for m in find_all_code(text, r"\bfn\s+(\w+)"):
-        name = m.group(1)
-        i = m.end()
-        depth = 0
-        n = len(text)
-        ok = False
-        while i < n:
-            j = _skip_trivia(text, i)
-            if j != i:
-                i = j; continue
-            c = text[i]
-            if c in "([":
-                depth += 1
-            elif c in ")]":
-                depth -= 1
-            elif c == "{" and depth == 0:
-                ok = True
-                break
-            elif c == ";" and depth == 0:
-                break
-            i += 1
-        if ok:
-            # body brace: but `requires`/`ensures` may contain braces in expressions? we accept
-            # the first `{` at depth 0 that is followed by a matching close as the body only if
-            # no later top-level brace follows before next fn; good enough for our generated files
-            # (contract clauses in our units never contain braces except in match/if handled below)
-            end = match_brace(text, i)
-            # skip past possible spec-clauses with blocks: find last brace group before next item
-            k = end
-            while True:
-                mm = re.compile(r"\s*\{").match(text, k)
-                if not mm:
-                    break
-                k = match_brace(text, mm.end() - 1)
-            end = k
-        else:
-            end = i
-        out.append((text.count("\n", 0, m.start()) + 1, text.count("\n", 0, end) + 1, name))
+    for k, (ln, name) in enumerate(starts):
+        end = (starts[k + 1][0] - 1) if k + 1 < len(starts) else total
+        out.append((ln, end, name))
     return out
 
 
@@ -659,3 +629,67 @@ def verus_canary(name, params, requires):
 
 def verus_file(items, prelude=""):
     return "use vstd::prelude::*;\n" + prelude + "\nverus! {\n\n" + "\n".join(items) + "\n} // verus!\nfn main() {}\n"
+
+
+def inject_loop_specs(body, specs, keyword=r"\b(while|for|loop)\b"):
+    """Attach Verus loop contracts by loop ordinal: specs[k] is inserted between the
+    k-th loop header and its body brace (ghost annotation; no executable token changes)."""
+    ms = find_all_code(body, keyword)
+    if len(ms) != len(specs):
+        raise AnchorLost("expected %d loops, found %d" % (len(specs), len(ms)))
+    out = body
+    for m, spec in reversed(list(zip(ms, specs))):
+        i = m.end()
+        depth = 0
+        n = len(out)
+        while i < n:
+            j = _skip_trivia(out, i)
+            if j != i:
+                i = j; continue
+            c = out[i]
+            if c in "([":
+                depth += 1
+            elif c in ")]":
+                depth -= 1
+            elif c == "{" and depth == 0:
+                break
+            i += 1
+        if spec:
+            out = out[:i] + "\n" + spec + "\n" + out[i:]
+    return out
+
+
+def split_statements(block):
+    """Top-level statements of a `{ ... }` block text (braces included).  Returns a
+    list of statement texts (with their terminating `;` if any); the trailing
+    expression (no `;`) is the last item."""
+    assert block.lstrip().startswith("{")
+    s = block.strip()[1:-1]
+    out, i, n, start = [], 0, len(s), 0
+    depth = 0
+    while i < n:
+        j = _skip_trivia(s, i)
+        if j != i:
+            i = j; continue
+        c = s[i]
+        if c in "([{":
+            if c == "{" and depth == 0:
+                end = match_brace(s, i)
+                # block-like statement ends here unless it continues (else / method call / ? / operator / ;)
+                m = re.compile(r"\s*(else\b|\.|\?|;|,|=|\)|as\b|\+|-|\*|/|&&|\|\|)").match(s, end)
+                head = s[start:i].strip()
+                blocklike = re.match(r"^(if|for|while|loop|match|unsafe)\b", head) or head == ""
+                if not m and blocklike:
+                    out.append(s[start:end].strip()); start = end
+                i = end
+                continue
+            depth += 1
+        elif c in ")]}":
+            depth -= 1
+        elif c == ";" and depth == 0:
+            out.append(s[start:i + 1].strip()); start = i + 1
+        i += 1
+    rest = s[start:].strip()
+    if rest:
+        out.append(rest)
+    return [x for x in out if x]
